@@ -164,24 +164,43 @@ class SynGen:
 		return s
 
 	def primary(self, d: int) -> str:
+		"""primary chains; which trailer may follow which receiver follows the node model (Relay: reference/call/comprehension/literal/group,
+		Indexer: reference/call/comprehension, FuncCall: anything) – e.g. '"abc"[0]' parses but the node model refuses to represent it."""
 		r = self.r
-		base = self.atom(d) if r.random() < 0.5 or d <= 0 else r.choice(NAMES + FUNCS + CLASSES)
+		if r.random() < 0.5 or d <= 0:
+			base = self.atom(d)
+			c0 = base[0]
+			if base in ('True', 'False', 'None', '...') or c0.isdigit():
+				kind = 'number'
+			elif c0 in '"\'':
+				kind = 'literal'
+			elif c0 == '(' :
+				kind = 'group' if 'group' in self.f and not base.endswith(',)') and base != '()' else 'collection'
+			elif c0 in '[{':
+				kind = 'comp' if (' for ' in base) else 'collection'
+			elif base.startswith('lambda'):
+				kind = 'lambda'
+			else:
+				kind = 'ref'
+		else:
+			base = r.choice(NAMES + FUNCS + CLASSES)
+			kind = 'ref'
 		n = r.choice([0, 0, 1, 1, 2, 3]) if d > 0 else r.choice([0, 0, 1])
-		# a literal number/keyword followed by '.' or '(' is legal but pointless; keep the receiver a name or a bracketed atom
-		if n and not (base[0].isalpha() or base[0] in '_([{"\'') or base in ('True', 'False', 'None', '...') or base[0].isdigit():
-			n = 0
-		if base.startswith('lambda'):
+		if kind in ('number', 'lambda', 'collection', 'group'):
 			n = 0
 		for _ in range(n):
 			x = r.random()
-			if x < 0.4:
+			if x < 0.4 and kind in ('ref', 'call', 'comp', 'literal'):
 				self.f.add('getattr')
 				base += '.' + r.choice(ATTRS)
-			elif x < 0.75:
+				kind = 'ref'
+			elif x < 0.75 and kind in ('ref', 'call'):
 				self.f.add('call')
 				base += '(' + self.arguments(d - 1) + ')'
-			else:
+				kind = 'call'
+			elif kind in ('ref', 'call', 'comp'):
 				base += '[' + self.slices(d - 1) + ']'
+				kind = 'ref'
 		return base
 
 	def expr_at(self, level: str, d: int) -> str:
@@ -301,7 +320,7 @@ class SynGen:
 			return ' = '.join(targets + [value])
 		if x < 0.44:
 			self.f.add('stmt:anno_assign')
-			t = self.name() if r.random() < 0.8 else 'self.' + r.choice(ATTRS)
+			t = self.name()
 			return f'{t}: {self.typed()}' + (f' = {self.expr(d)}' if r.random() < 0.8 else '')
 		if x < 0.52:
 			op = r.choice(AUG_OPS)
